@@ -383,6 +383,15 @@ def _struct(body, r):
                       'reorder', 'insert', 'insert', 'wrap', 'empty',
                       'deep', 'near_miss', 'near_miss', 'near_miss',
                       'unwrap', 'unwrap', 'replace', 'replace', 'replace'])
+        qrc = [n for n in nodes if n.tag == 'PARAMVALUE' and
+               n.get('NAME') == 'QueryResultClass']
+        if qrc and r.random() < 0.3:
+            # the class that describes a query result is something else
+            for kch in list(qrc[0]):
+                qrc[0].remove(kch)
+            if r.random() < 0.85:
+                qrc[0].append(etree.fromstring(r.choice(VALID_OBJECTS)))
+            continue
         pv = [n for n in nodes if n.tag == 'PARAMVALUE' and
               n.get('NAME') in ('EnumerationContext', 'EndOfSequence')]
         if pv and r.random() < 0.25:
